@@ -86,7 +86,8 @@ MsgLaw(op, a) ==
 (***************************************************************************)
 (* Bounded grids                                                           *)
 (***************************************************************************)
-MsgNameGrid == {<<>>, <<97>>, <<195, 164, 47, 120>>, Rep(100, 110)}
+\* (the last two contain the marker "cfdp" themselves: /cfdp/x and x.cfdp)
+MsgNameGrid == {<<>>, <<97>>, <<195, 164, 47, 120>>, Rep(100, 110), <<47, 99, 102, 100, 112, 47, 120>>, <<120, 46, 99, 102, 100, 112>>}
 MsgIdGrid == {IdPat(w, 0) : w \in Widths} \cup {IdFF(8), Id80(4), <<0>>}
 
 MsgNParts == 4
